@@ -1143,6 +1143,61 @@ pub fn lincode_proof_mutation(
             }
             paths[0] = paths[j].clone();
         }
+        // ---- the same kinds of replacement at the LAST position of each list, and at a position whose leaf
+        // index already occurred earlier in the opening (every element is part of the relation, not only the first)
+        "replace:v_last" => {
+            if v.len() < 2 {
+                return false;
+            }
+            let n = v.len();
+            v[n - 1] = Fr381::rand(rng);
+        }
+        "replace:wf_last" => match wf.as_mut() {
+            Some(w) if w.len() >= 2 => {
+                let n = w.len();
+                w[n - 1] = Fr381::rand(rng)
+            }
+            _ => return false,
+        },
+        "replace:col_last" => {
+            if cols.len() < 2 || cols[cols.len() - 1].is_empty() {
+                return false;
+            }
+            let n = cols.len();
+            let m = cols[n - 1].len();
+            cols[n - 1][m - 1] = Fr381::rand(rng);
+        }
+        "sibling:path_last" | "sibling:path_repeat" | "authpath:path_repeat" => {
+            if paths.len() < 2 {
+                return false;
+            }
+            // the last position; for *_repeat the last position whose leaf index occurred before
+            let mut j = paths.len() - 1;
+            if kind != "sibling:path_last" {
+                let mut found = None;
+                for a in (1..paths.len()).rev() {
+                    if paths[..a].iter().any(|q| q.leaf_index == paths[a].leaf_index) {
+                        found = Some(a);
+                        break;
+                    }
+                }
+                match found {
+                    Some(a) => j = a,
+                    None => return false,
+                }
+            }
+            let mut b = [0u8; 32];
+            rng.fill_bytes(&mut b);
+            if kind == "authpath:path_repeat" {
+                if paths[j].auth_path.is_empty() {
+                    return false;
+                }
+                let m = paths[j].auth_path.len();
+                paths[j].auth_path[m - 1] = b.to_vec();
+            } else {
+                paths[j].leaf_sibling_hash = b.to_vec();
+            }
+        }
         "path_sibling" => {
             // corrupt one sibling hash of path 0 but keep its leaf index
             if paths.is_empty() {
